@@ -17,6 +17,7 @@ import (
 	"go/token"
 	"os"
 	"path/filepath"
+	"regexp"
 	"sort"
 	"strings"
 )
@@ -36,6 +37,7 @@ type lgCtx struct {
 	fset    *token.FileSet
 	types   map[string]*lgType
 	apiKeys map[string]int // root package `const ( produce apiKey = 0 … )`
+	versioned map[string]bool // types whose layout depends on a `v apiVersion` field
 }
 
 type untranslatable struct{ why string }
@@ -583,10 +585,16 @@ func extractLegacy(repo, root string) error {
 	if !ok {
 		return fmt.Errorf("package kafka not found in %s", repo)
 	}
-	c := &lgCtx{fset: fset, types: map[string]*lgType{}, apiKeys: map[string]int{}}
+	c := &lgCtx{fset: fset, types: map[string]*lgType{}, apiKeys: map[string]int{}, versioned: map[string]bool{}}
 	decls := map[string]*lgType{}
 	var emitted []string
 	var writers []*ast.FuncDecl
+	type emission struct {
+		typ      string
+		key      int
+		versions []int
+	}
+	var emissions []emission
 	for _, f := range pkg.Files {
 		for _, d := range f.Decls {
 			switch x := d.(type) {
@@ -654,6 +662,15 @@ func extractLegacy(repo, root string) error {
 	for n, t := range decls {
 		if t.size != nil && t.writeTo != nil && (t.st != nil || t.slice != nil) {
 			c.types[n] = t
+			if t.st != nil {
+				for _, f := range t.st.Fields.List {
+					for _, nm := range f.Names {
+						if nm.Name == "v" {
+							c.versioned[n] = true
+						}
+					}
+				}
+			}
 		}
 	}
 	// emitted types: 4th argument of c.writeRequest(apiKey, version, id, REQ)
@@ -737,6 +754,39 @@ func extractLegacy(repo, root string) error {
 						tn = "?" + strings.Join(strings.Fields(func() string { var sb strings.Builder; printer.Fprint(&sb, fset, x.Args[3]); return sb.String() }()), " ")
 					}
 					emitted = append(emitted, tn)
+					// api key constant and the version(s) this call site sends: a literal vN, or the versions passed to
+					// negotiateVersion(<same key>, …) in the same function
+					if kid, ok := x.Args[0].(*ast.Ident); ok {
+						if kn, ok := c.apiKeys[kid.Name]; ok {
+							var vs []int
+							if vid, ok := x.Args[1].(*ast.Ident); ok && len(vid.Name) > 1 && vid.Name[0] == 'v' {
+								var k int
+								if _, err := fmt.Sscanf(vid.Name[1:], "%d", &k); err == nil {
+									vs = []int{k}
+								}
+							}
+							if vs == nil {
+								ast.Inspect(fd.Body, func(m ast.Node) bool {
+									if ce, ok := m.(*ast.CallExpr); ok {
+										if se, ok := ce.Fun.(*ast.SelectorExpr); ok && se.Sel.Name == "negotiateVersion" && len(ce.Args) >= 2 {
+											if k0, ok := ce.Args[0].(*ast.Ident); ok && k0.Name == kid.Name {
+												for _, a := range ce.Args[1:] {
+													if ai, ok := a.(*ast.Ident); ok && len(ai.Name) > 1 && ai.Name[0] == 'v' {
+														var k int
+														if _, err := fmt.Sscanf(ai.Name[1:], "%d", &k); err == nil {
+															vs = append(vs, k)
+														}
+													}
+												}
+											}
+										}
+									}
+									return true
+								})
+							}
+							emissions = append(emissions, emission{tn, kn, vs})
+						}
+					}
 				}
 				return true
 			})
@@ -769,10 +819,14 @@ func extractLegacy(repo, root string) error {
 	}
 	var sb strings.Builder
 	sb.WriteString("-- GENERATED by /verif/go/extract (legacy) from /repo/*.go — do not edit\n")
-	sb.WriteString("import KafkaVerif.Base.LegacyWire\nnamespace KV.Gen.Legacy\nopen KV KV.Legacy\n\n")
+	sb.WriteString("import KafkaVerif.Base.LegacyWire\nimport KafkaVerif.Lemmas.LegacyModel\nnamespace KV.Gen.Legacy\nopen KV KV.Legacy KV.Codec\n\n")
+	sb.WriteString("/-- proves `encode (T.ty t) (T.val t) = T.writeTo t`: unfold, split the version tests, rewrite the model encoder into the\nwriteBuffer primitives (nested `legacy_model` theorems are simp lemmas) -/\n")
+	sb.WriteString("syntax \"legacy_model_tac \" ident ident ident : tactic\nmacro_rules\n  | `(tactic| legacy_model_tac $a $b $w) => `(tactic|\n      (simp only [$a:ident, $b:ident, $w:ident]\n       repeat' split\n       all_goals (first | rfl | (simp [enc_struct, encFields_cons, encFields_nil, enc_int8, enc_int16, enc_int32, enc_int64, enc_bool, enc_string, enc_bytes, enc_array, enc_array_null] <;> try (simp [writeStringArray, writeInt32Array, writeArray, writeArrayLen, writeInt32, writeString, writeInt32_fun, writeString_fun])))))\n\n")
 	sb.WriteString("/-- the one tactic that proves every `legacy_size`: unfold the two methods, rewrite written lengths into announced\nsizes (nested `legacy_size` theorems are simp lemmas), close the linear arithmetic -/\n")
 	sb.WriteString("syntax \"legacy_size_tac \" ident ident : tactic\nmacro_rules\n  | `(tactic| legacy_size_tac $s $w) => `(tactic|\n      (simp only [$s:ident, $w:ident]\n       repeat' split\n       all_goals ((try simp_all [len_writeArray', len_writeEach, sizeofArray, sumInt_const,\n         sizeofInt8, sizeofInt16, sizeofInt32, sizeofInt64, sizeofBool, sizeofInt32Array, sizeofStringArray, sumInt]) <;> (try omega))))\n\n")
 	translated := map[string]bool{}
+	schemaOK := map[string]bool{}
+	var noSchema []string
 	var failed []string
 	for _, n := range order {
 		t := c.types[n]
@@ -793,6 +847,12 @@ func extractLegacy(repo, root string) error {
 		}
 		translated[n] = true
 		sb.WriteString(src + "\n")
+		if sch, err := c.translateSchema(t); err == nil {
+			schemaOK[n] = true
+			sb.WriteString(sch + "\n")
+		} else {
+			noSchema = append(noSchema, fmt.Sprintf("(%q, %q)", n, err.Error()))
+		}
 	}
 	sort.Slice(writers, func(i, j int) bool { return writers[i].Name.Name < writers[j].Name.Name })
 	var wl []string
@@ -821,11 +881,95 @@ func extractLegacy(repo, root string) error {
 		el = append(el, fmt.Sprintf("%q", n))
 	}
 	fmt.Fprintf(&sb, "/-- types with both size() and writeTo() that were translated (each has a `legacy_size` theorem above) -/\ndef translated : List String := [%s]\n", strings.Join(tl, ", "))
+	fmt.Fprintf(&sb, "/-- translated types whose writeTo could not be read as a schema, with the reason -/\ndef noSchema : List (String × String) := [%s]\n", strings.Join(noSchema, ", "))
 	fmt.Fprintf(&sb, "/-- types passed to (*Conn).writeRequest -/\ndef emitted : List String := [%s]\n", strings.Join(el, ", "))
 	fmt.Fprintf(&sb, "/-- types the translator does not handle, with the reason -/\ndef untranslated : List (String × String) := [%s]\n", strings.Join(failed, ", "))
 	sb.WriteString("/-- every emitted type has its theorem -/\ntheorem emitted_covered : emitted.all (fun n => translated.contains n) = true := by decide\n")
 	sb.WriteString("\nend KV.Gen.Legacy\n")
-	return os.WriteFile(filepath.Join(root, "lean", "KafkaVerif", "Gen", "Legacy.lean"), []byte(sb.String()), 0o644)
+	if err := os.WriteFile(filepath.Join(root, "lean", "KafkaVerif", "Gen", "Legacy.lean"), []byte(sb.String()), 0o644); err != nil {
+		return err
+	}
+	// ---- Gen/LegacyGolden.lean: what Conn emits is the reference encoding under the golden schema
+	var gb strings.Builder
+	gb.WriteString("-- GENERATED by /verif/go/extract (legacy) from /repo/*.go — do not edit\n")
+	gb.WriteString("import KafkaVerif.Gen.Legacy\nimport KafkaVerif.Props.C04\nimport KafkaVerif.Spec.KafkaSchemas\nnamespace KV.Gen.Legacy\nopen KV KV.Legacy KV.Codec\n\n")
+	gb.WriteString("/-- from `goldenTy … = some g` with `g` equal (decidably) to the writer's own schema, and the writer being the model\nencoder at that schema: the bytes are the reference encoding under the golden schema (strings written non-null: `Spec.denull`) -/\n")
+	gb.WriteString("theorem eq_spec_of {ty : Ty} {v : Val} {bytes : Bytes} {og : Option Ty}\n    (hg : og.map (fun g => Ty.beq ty (Spec.denull g)) = some true) (hm : encode ty v = bytes) (hwf : ty.wf = true) (hwt : wt ty v = true) :\n    ∃ g, og = some g ∧ bytes = Spec.encode (Spec.denull g) v := by\n  cases og with\n  | none => simp at hg\n  | some g =>\n    simp only [Option.map_some, Option.some.injEq] at hg\n    have := Ty.eq_of_beq ty (Spec.denull g) hg\n    exact ⟨g, rfl, by rw [← hm, ← this]; exact KV.C04.encode_eq_spec ty v hwf hwt⟩\n\n")
+	gb.WriteString(`/-- conn.go writeRequest: the header (Size = hdr.size() + req.size() - 4) followed by the request body is the Kafka
+request frame (header v1, non-null client id) around that body -/
+theorem legacy_frame_eq_spec (h : requestHeader) (body : Bytes)
+    (hsize : h.Size = requestHeader.size h + body.length - 4)
+    (hk : KV.Codec.inRange 16 h.ApiKey = true) (hv : KV.Codec.inRange 16 h.ApiVersion = true)
+    (hc : KV.Codec.inRange 32 h.CorrelationID = true) (hcid : h.ClientID.length < 2 ^ 15)
+    (hlen : requestHeader.size h + body.length - 4 < 2 ^ 31) :
+    requestHeader.writeTo h ++ body =
+      Spec.frameRequest false h.ApiKey h.ApiVersion h.CorrelationID h.ClientID body := by
+  have e16 : ∀ i, KV.Codec.inRange 16 i = true → Wire.encInt 2 i = Spec.sint 2 i :=
+    fun i hi => KV.C04.encInt_eq_sint_of_inRange 2 (by decide) i hi
+  have e32 : ∀ i, KV.Codec.inRange 32 i = true → Wire.encInt 4 i = Spec.sint 4 i :=
+    fun i hi => KV.C04.encInt_eq_sint_of_inRange 4 (by decide) i hi
+  have hsz : requestHeader.size h = 12 + (2 + (h.ClientID.length : Int)) := by
+    simp [requestHeader.size, sizeofString]
+  have hcl : KV.Codec.inRange 16 (h.ClientID.length : Int) = true := by
+    simp only [KV.Codec.inRange, Bool.and_eq_true, decide_eq_true_eq]; constructor <;> omega
+  have hS' : h.Size = 12 + (2 + (h.ClientID.length : Int)) + body.length - 4 := by rw [hsize, hsz]
+  have hlen' : 12 + (2 + (h.ClientID.length : Int)) + body.length - 4 < 2 ^ 31 := by rw [hsz] at hlen; exact hlen
+  have hS : KV.Codec.inRange 32 h.Size = true := by
+    rw [hS']
+    simp only [KV.Codec.inRange, Bool.and_eq_true, decide_eq_true_eq]; constructor <;> omega
+  have sl : ∀ (k : Nat) (i : Int), (Spec.sint k i).length = k := by
+    intro k i; simp [Spec.sint, Spec.unsignedBE]
+  have hw : requestHeader.writeTo h ++ body =
+      Spec.sint 4 h.Size ++ (Spec.sint 2 h.ApiKey ++ Spec.sint 2 h.ApiVersion ++ Spec.sint 4 h.CorrelationID ++
+        (Spec.sint 2 (h.ClientID.length : Int) ++ h.ClientID) ++ body) := by
+    simp only [requestHeader.writeTo, writeInt32, writeInt16, writeString, List.append_assoc]
+    rw [e32 _ hS, e16 _ hk, e16 _ hv, e32 _ hc, e16 _ hcl]
+  rw [hw]
+  have hks : Spec.kString false false h.ClientID = Spec.sint 2 (h.ClientID.length : Int) ++ h.ClientID := by
+    simp [Spec.kString]
+  unfold Spec.frameRequest Spec.frame
+  simp only [Bool.false_eq_true, if_false, hks]
+  have key : ∀ (X : Bytes), ((X.length : Nat) : Int) = h.Size → Spec.sint 4 h.Size ++ X = Spec.sint 4 (X.length : Int) ++ X := by
+    intro X hx; rw [hx]
+  apply key
+  simp only [List.length_append, sl]
+  rw [hS']
+  omega
+
+`)
+	sort.Slice(emissions, func(i, j int) bool {
+		if emissions[i].typ != emissions[j].typ {
+			return emissions[i].typ < emissions[j].typ
+		}
+		return emissions[i].key < emissions[j].key
+	})
+	seenE := map[string]bool{}
+	var gl []string
+	for _, e := range emissions {
+		if !schemaOK[e.typ] {
+			continue
+		}
+		for _, k := range e.versions {
+			id := fmt.Sprintf("%s.v%d", e.typ, k)
+			if seenE[id] {
+				continue
+			}
+			seenE[id] = true
+			hv, simpv := "", ""
+			if c.versioned[e.typ] {
+				hv = fmt.Sprintf(" (hv : t.v = %d)", k)
+				simpv = ", hv"
+			}
+			fmt.Fprintf(&gb, "/-- %s sent as api key %d version %d: schema = golden table, bytes = reference encoding -/\n", e.typ, e.key, k)
+			fmt.Fprintf(&gb, "theorem %s.legacy_eq_spec_v%d (t : %s)%s (hwt : wt (%s.ty t) (%s.val t) = true) :\n    ∃ g, Spec.goldenTy %d true %d (%s.ty t) = some g ∧ %s.writeTo t = Spec.encode (Spec.denull g) (%s.val t) := by\n",
+				e.typ, k, e.typ, hv, e.typ, e.typ, e.key, k, e.typ, e.typ, e.typ)
+			fmt.Fprintf(&gb, "  apply eq_spec_of (ty := %s.ty t) (v := %s.val t) ?_ (%s.legacy_model t) ?_ hwt\n", e.typ, e.typ, e.typ)
+			fmt.Fprintf(&gb, "  · simp only [%s.ty%s]; decide\n  · simp only [%s.ty%s]; decide\n\n", e.typ, simpv, e.typ, simpv)
+			gl = append(gl, fmt.Sprintf("(%q, %d, %d)", e.typ, e.key, k))
+		}
+	}
+	fmt.Fprintf(&gb, "/-- (type, api key, version) of every `(*Conn).writeRequest` call site covered above -/\ndef goldenCovered : List (String × Nat × Nat) := [%s]\n\nend KV.Gen.Legacy\n", strings.Join(gl, ", "))
+	return os.WriteFile(filepath.Join(root, "lean", "KafkaVerif", "Gen", "LegacyGolden.lean"), []byte(gb.String()), 0o644)
 }
 
 func uniq(s []string) []string {
@@ -1078,4 +1222,221 @@ func (e *wEnv) sizeSum(x ast.Expr) string {
 		}
 	}
 	return e.val(x)
+}
+
+// ---------------------------------------------------------------------------------------------------------
+// the writeTo() body read a second time, as a schema: which Kafka type each write emits and which value it carries.
+// `T.ty t : Ty` / `T.val t : Val` (Model/Schema.lean) with `T.legacy_model : encode (T.ty t) (T.val t) = T.writeTo t`
+// make the hand-written writer an instance of the model encoder, hence (encode_eq_spec) of the Kafka reference.
+
+type tv struct{ ty, val string } // Lean expressions of type List Ty / List Val
+
+func cat(parts []tv) tv {
+	if len(parts) == 0 {
+		return tv{"([] : List Ty)", "([] : List Val)"}
+	}
+	var a, b []string
+	for _, p := range parts {
+		a = append(a, p.ty)
+		b = append(b, p.val)
+	}
+	return tv{"(" + strings.Join(a, " ++ ") + ")", "(" + strings.Join(b, " ++ ") + ")"}
+}
+
+func one(ty, val string) tv { return tv{"[" + ty + "]", "[" + val + "]"} }
+
+// schemaStmts mirrors writeStmts.
+func (e *lgEnv) schemaStmts(list []ast.Stmt) tv {
+	var parts []tv
+	for i := 0; i < len(list); i++ {
+		// `wb.writeInt32(int32(len(X)))` / `wb.writeArrayLen(len(X))` followed by `for _, y := range X { … }` is an array
+		if i+1 < len(list) {
+			if x, ok := e.lenWrite(list[i]); ok {
+				if rs, ok := list[i+1].(*ast.RangeStmt); ok && e.c.src(rs.X) == x {
+					if v, ok := rs.Value.(*ast.Ident); ok {
+						inner := &lgEnv{c: e.c, t: e.t, recv: e.recv, vars: map[string]string{}}
+						for k, vv := range e.vars {
+							inner.vars[k] = vv
+						}
+						inner.vars[v.Name] = "y"
+						el := inner.schemaStmts(rs.Body.List)
+						parts = append(parts, one("(.array false false "+elemTy(el)+")", "(.arr (some ("+e.expr(rs.X)+".map fun y => "+elemVal(el)+")))"))
+						i++
+						continue
+					}
+				}
+			}
+		}
+		parts = append(parts, e.schemaStmt(list[i]))
+	}
+	return cat(parts)
+}
+
+// lenWrite recognises a write of len(X) and returns the source text of X.
+func (e *lgEnv) lenWrite(st ast.Stmt) (string, bool) {
+	es, ok := st.(*ast.ExprStmt)
+	if !ok {
+		return "", false
+	}
+	call, ok := es.X.(*ast.CallExpr)
+	if !ok || len(call.Args) != 1 {
+		return "", false
+	}
+	sel, ok := call.Fun.(*ast.SelectorExpr)
+	if !ok || (sel.Sel.Name != "writeInt32" && sel.Sel.Name != "writeArrayLen") {
+		return "", false
+	}
+	a := call.Args[0]
+	for {
+		c, ok := a.(*ast.CallExpr)
+		if !ok || len(c.Args) != 1 {
+			return "", false
+		}
+		if id, ok := c.Fun.(*ast.Ident); ok {
+			if id.Name == "len" {
+				return e.c.src(c.Args[0]), true
+			}
+			if id.Name == "int32" || id.Name == "int" {
+				a = c.Args[0]
+				continue
+			}
+		}
+		return "", false
+	}
+}
+
+// an array element described by a field list: a single field stands for itself, several for a struct
+func elemTy(el tv) string {
+	if strings.HasPrefix(el.ty, "([") && strings.HasSuffix(el.ty, "])") && !strings.Contains(el.ty, "] ++ ") {
+		return el.ty[2 : len(el.ty)-2]
+	}
+	return "(.struct false " + el.ty + " [] [])"
+}
+func elemVal(el tv) string {
+	if strings.HasPrefix(el.ty, "([") && strings.HasSuffix(el.ty, "])") && !strings.Contains(el.ty, "] ++ ") {
+		return el.val[2 : len(el.val)-2]
+	}
+	return "(.struct " + el.val + " [])"
+}
+
+func (e *lgEnv) schemaStmt(st ast.Stmt) tv {
+	switch s := st.(type) {
+	case *ast.ExprStmt:
+		call, ok := s.X.(*ast.CallExpr)
+		if !ok {
+			break
+		}
+		sel, ok := call.Fun.(*ast.SelectorExpr)
+		if !ok {
+			break
+		}
+		if id, ok := sel.X.(*ast.Ident); ok && id.Name == "wb" && len(call.Args) >= 1 {
+			a := ""
+			if sel.Sel.Name != "writeArray" {
+				a = e.arg(call.Args[0])
+			}
+			switch sel.Sel.Name {
+			case "writeInt8":
+				return one(".int8", "(.int "+a+")")
+			case "writeInt16":
+				return one(".int16", "(.int "+a+")")
+			case "writeInt32":
+				return one(".int32", "(.int "+a+")")
+			case "writeInt64":
+				return one(".int64", "(.int "+a+")")
+			case "writeBool":
+				return one(".bool", "(.bool "+a+")")
+			case "writeString":
+				return one("(.string false false)", "(.str "+a+")")
+			case "writeBytes":
+				return one("(.bytes false false)", "(.bytes (some "+a+"))")
+			case "writeStringArray":
+				return one("(.array false false (.string false false))", "(.arr (some ("+a+".map .str)))")
+			case "writeInt32Array":
+				return one("(.array false false .int32)", "(.arr (some ("+a+".map .int)))")
+			case "writeArray":
+				if len(call.Args) == 2 {
+					arr, _, body, inner := e.arrayClosure(call.Args[0], call.Args[1])
+					el := inner.schemaStmts(body.List)
+					return one("(.array false false "+elemTy(el)+")", "(.arr (some ("+arr+".map fun x => "+elemVal(el)+")))")
+				}
+			}
+		}
+		if sel.Sel.Name == "writeTo" && len(call.Args) == 1 {
+			if l, ok := e.indexed(sel.X); ok {
+				ix := sel.X.(*ast.IndexExpr)
+				if n := elemTypeName(e.typeOfExpr(ix.X)); n != "" {
+					if e.c.versioned[n] {
+						bad("nested versioned type %s", n)
+					}
+					return one(n+".tyC", "("+n+".val "+l+")")
+				}
+			}
+			if t := e.typeOfExpr(sel.X); t != nil {
+				if id, ok := t.(*ast.Ident); ok {
+					if e.c.versioned[id.Name] {
+						bad("nested versioned type %s", id.Name)
+					}
+					return one(id.Name+".tyC", "("+id.Name+".val "+e.expr(sel.X)+")")
+				}
+			}
+		}
+	case *ast.IfStmt:
+		if s.Init == nil && s.Else == nil {
+			in := e.schemaStmts(s.Body.List)
+			c := e.cond(s.Cond)
+			return tv{"(if " + c + " then " + in.ty + " else [])", "(if " + c + " then " + in.val + " else [])"}
+		}
+		// `if X == nil { wb.writeArrayLen(-1) } else { <one array write> }`: a nullable array
+		if blk, ok := s.Else.(*ast.BlockStmt); ok && s.Init == nil && len(s.Body.List) == 1 && len(blk.List) == 1 {
+			if strings.Contains(e.c.src(s.Body.List[0]), "writeArrayLen(-1)") {
+				in := e.schemaStmt(blk.List[0])
+				if strings.HasPrefix(in.ty, "[(.array false false ") && strings.HasPrefix(in.val, "[(.arr (some ") {
+					c := e.cond(s.Cond)
+					ty := "[(.array false true " + strings.TrimPrefix(in.ty, "[(.array false false ")
+					inner := strings.TrimSuffix(strings.TrimPrefix(in.val, "[(.arr "), ")]")
+					return tv{ty, "[(.arr (if " + c + " then none else " + inner + "))]"}
+				}
+			}
+		}
+	}
+	bad("schema of statement %s", e.c.src(st))
+	return tv{}
+}
+
+// translateSchema emits T.ty / T.val and the theorem tying writeTo to the model encoder.
+func (c *lgCtx) translateSchema(t *lgType) (out string, err error) {
+	defer func() {
+		if r := recover(); r != nil {
+			if u, ok := r.(untranslatable); ok {
+				err = u
+				return
+			}
+			panic(r)
+		}
+	}()
+	rw, _ := recvOf(t.writeTo)
+	we := &lgEnv{c: c, t: t, recv: rw, vars: map[string]string{}}
+	f := we.schemaStmts(t.writeTo.Body.List)
+	var sb strings.Builder
+	n := t.name
+	fmt.Fprintf(&sb, "/-- the Kafka type %s.writeTo emits (for the version in `t.v`, if any) and the value it carries -/\n", n)
+	if c.versioned[n] {
+		fmt.Fprintf(&sb, "def %s.ty (t : %s) : Ty := .struct false %s [] []\n", n, n, f.ty)
+	} else {
+		if regexp.MustCompile(`\bt\.`).MatchString(f.ty) {
+			bad("schema of a type without version field depends on the value: %s", f.ty)
+		}
+		fmt.Fprintf(&sb, "def %s.tyC : Ty := .struct false %s [] []\n", n, f.ty)
+		fmt.Fprintf(&sb, "@[simp] theorem %s.tyC_zeroSize : %s.tyC.zeroSize = false := rfl\n", n, n)
+		fmt.Fprintf(&sb, "def %s.ty (_ : %s) : Ty := %s.tyC\n", n, n, n)
+	}
+	fmt.Fprintf(&sb, "def %s.val (t : %s) : Val := .struct %s []\n", n, n, f.val)
+	if c.versioned[n] {
+		fmt.Fprintf(&sb, "@[simp] theorem %s.legacy_model (t : %s) : encode (%s.ty t) (%s.val t) = %s.writeTo t := by\n  legacy_model_tac %s.ty %s.val %s.writeTo\n", n, n, n, n, n, n, n, n)
+	} else {
+		fmt.Fprintf(&sb, "@[simp] theorem %s.legacy_modelC (t : %s) : encode %s.tyC (%s.val t) = %s.writeTo t := by\n  legacy_model_tac %s.tyC %s.val %s.writeTo\n", n, n, n, n, n, n, n, n)
+		fmt.Fprintf(&sb, "theorem %s.legacy_model (t : %s) : encode (%s.ty t) (%s.val t) = %s.writeTo t := %s.legacy_modelC t\n", n, n, n, n, n, n)
+	}
+	return sb.String(), nil
 }
